@@ -1,12 +1,16 @@
 """Stage 2 tie for class dlinked_list (used by C02 / C03 / C04 through contlib.ContCheck.extra_steps).
 
 The histories of class dlinked_list are run through the extracted POINTER-LEVEL model
-(coq/Cont/DListModel.v, driver/cont_dlinked_list_main.ml: return values and read-back computed
-on the model's own node store, plus the structure dump `D len= next=[..] prev=[..] hp= tn=`) and through the
-ASan build of the real class with LV_CONT_B=1 (same dump read through the public struct fields).
-Level A = the part before '|' differs (return value / read-back), level B = only the dump does:
-the links or len of the real object are not what the proved model has, although every observable
-was still right.
+(coq/Cont/DListModel.v, driver/cont_dlinked_list_main.ml: return values and read-back computed by the
+model's own operations on its node store, plus the structure dump `D len= next=[..] prev=[..] hp= tn=`)
+and through the ASan build of the real class with LV_CONT_B=1 (same dump read through the public
+struct fields by harness/cont.c).
+Level A = the part before '|' differs (return value / read-back), or the implementation faults where
+the model does not (a dangling link that the dump walk or a later operation touches);
+level B = only the dump differs: len, the next chain from head, the prev chain from tail, head->prev
+or tail->next of the real object are not what the proved model (Properties/C0x_dlinked_list.v) has,
+although every observable was still right - e.g. a missing back link under the map interface, which
+never walks backwards.
 """
 import os, time
 import vlib
@@ -28,22 +32,37 @@ def _first_diff(m, i):
 
 def run(chk, ctx, cases):
     cases = [c for c in cases if c.split(' ')[1:2] == [CLASS]]
+    cov = ctx['cov'].setdefault('class_model_runs', {}).setdefault(CLASS, {})
+    cov['histories'] = len(cases)
     if not cases:
         return []
     t0 = time.time()
     exe, log = vlib.build_model(FAMILY)
     if exe is None:
-        # the pointer-level model does not build from this tree: the tie is broken, not the library
-        return [('B', cases[0], 'pointer-level model of %s does not build: %s' % (CLASS, log[-400:]))]
+        # the pointer-level model does not build from this tree: use the model of the last tree on which it
+        # did (it is the function the theorems are about); without one the tie is broken, not the library
+        exe = vlib.good_model(FAMILY)
+        cov['model_used'] = 'last good build' if exe else 'none'
+        if exe is None:
+            return [('B', cases[0], 'pointer-level model of %s does not build: %s' % (CLASS, log[-400:]))]
+    else:
+        vlib.save_good_model(FAMILY, exe)
     work = os.path.join(vlib.BUILD, 'work', chk.id.lower())
     os.makedirs(work, exist_ok=True)
-    path = os.path.join(work, 'cases-%s.txt' % FAMILY)
+    # a file of its own per process: several checks of one property may run at the same time
+    path = os.path.join(work, 'cases-%s-%d.txt' % (FAMILY, os.getpid()))
     with open(path, 'w') as f:
         for c in cases:
             f.write(c + '\n')
-    mouts, minfo = vlib.run_model(exe, path, len(cases))
-    iouts, det = vlib.run_cases(ctx['impl_exe'], path, len(cases), env={'LV_CONT_B': '1'},
-                                timeout_per_run=getattr(chk, 'case_timeout', 600))
+    try:
+        mouts, minfo = vlib.run_model(exe, path, len(cases))
+        iouts, det = vlib.run_cases(ctx['impl_exe'], path, len(cases), env={'LV_CONT_B': '1'},
+                                    timeout_per_run=getattr(chk, 'case_timeout', 600))
+    finally:
+        try:
+            os.remove(path)
+        except OSError:
+            pass
     out = []
     agree = 0
     for c, m, i in zip(cases, mouts, iouts):
@@ -66,10 +85,10 @@ def run(chk, ctx, cases):
                 out.append(('A', c, '%s differs from its pointer-level model in a return value or read-back; %s'
                             % (CLASS, _first_diff(ma, ia))))
             else:
-                out.append(('B', c, 'structure dump of %s (len, head->next chain, tail->prev chain, head->prev, tail->next) differs from the pointer-level model; %s'
+                out.append(('B', c, 'structure dump of %s (len, head->next chain, tail->prev chain, head->prev, '
+                                    'tail->next) differs from the pointer-level model; %s'
                             % (CLASS, _first_diff(split_ab(m)[1], split_ab(i)[1]))))
-    ctx['cov'].setdefault('class_model_runs', {})[CLASS] = dict(
-        histories=len(cases), agree=agree, disagree=len(out), wall_s=round(time.time() - t0, 2),
-        model='coq/Cont/DListModel.v via driver/%s_main.ml' % FAMILY)
+    cov.update(agree=agree, disagree=len(out), wall_s=round(time.time() - t0, 2),
+               model='coq/Cont/DListModel.v via driver/%s_main.ml' % FAMILY)
     out.sort(key=lambda d: (d[0], len(d[1])))
     return out[:200]
